@@ -33,6 +33,7 @@ def main():
     ap.add_argument("--no-confirm", action="store_true")
     ap.add_argument("--keep-as", default="")
     ap.add_argument("--needs", default="")
+    ap.add_argument("--scratch", action="store_true", help="run the checks on a scratch copy (TCHK_REPO) instead of applying the patch to /repo (used while /repo is busy)")
     a = ap.parse_args()
     patch = os.path.join(a.seed, "patch.diff")
     demos = sorted(glob.glob(os.path.join(a.seed, "*_test.go")))
@@ -79,6 +80,26 @@ def main():
                 meta["suite_passes_with_change"] = rc3 == 0
         finally:
             sh(["git", "-C", "/repo", "worktree", "remove", "--force", WT])
+    if a.scratch:
+        import tempfile
+        tmp = tempfile.mkdtemp(prefix="seed-det-")
+        try:
+            sh(["sh", "-c", "git -C /repo archive HEAD | tar -x -C " + tmp])
+            rc, out = sh(["patch", "-p1", "-s", "-i", os.path.abspath(patch)], cwd=tmp)
+            assert rc == 0, out
+            fired = {}
+            for i in range(1, 21):
+                pid = "C%02d" % i
+                env = dict(ENV, TCHK_REPO=tmp)
+                pr = subprocess.run([os.path.join(ROOT, "bin", "tchk"), "-property", pid, "-tier", "quick", "-no-evidence"], env=env, capture_output=True, text=True)
+                if pr.returncode != 0:
+                    lines = [l.strip().replace(tmp + "/", "") for l in (pr.stdout + pr.stderr).splitlines() if (": rule " in l and not l.startswith("KNOWN")) or l.startswith("ERROR")]
+                    fired[pid] = {"exit": pr.returncode, "reports": lines[:8]}
+            print("checks fired:", json.dumps(fired, indent=1))
+        finally:
+            shutil.rmtree(tmp, ignore_errors=True)
+            shutil.rmtree(os.path.join(ROOT, "evidence", "violations"), ignore_errors=True)
+        return
     # detection
     rc, out = sh(["git", "-C", "/repo", "status", "--porcelain"])
     assert out.strip() == "", "/repo not clean: " + out
